@@ -295,6 +295,12 @@ Definition dense_bd (n : nat) (bd : list nat) : list Z := map (fun i => if memn 
 Definition boundary_matrix (s : list nop) : list (list Z) :=
   map (fun o => match o with NIns _ bd => dense_bd (length s) bd | _ => dense_bd (length s) [] end) s.
 
+(* hypothesis of the alive-count theorem, decidable: no negative multiplicity *)
+Definition mult_nonneg (s : list nop) (k : Z) : bool :=
+  let n := length s in
+  let r := rfun n (rtab s k) in
+  forallb (fun b => forallb (fun e => 0 <=? mult r (Z.of_nat b) (Z.of_nat e)) (seq b (n - b))) (seq 0 n).
+
 (* ordinary persistence of an insertion-only sequence by the certified reduction of coq/ReduceExec.v (Z_2) *)
 Require Import ReduceExec.
 Definition ordinary_bars (s : list nop) : option (list bar) :=
